@@ -41,6 +41,9 @@ type Config struct {
 	// ReloadAlt > 0: the alphabet has a reload operation that replaces breaker #0's rule by one with
 	// the threshold toggled between its own and ReloadAlt (statistic parameters unchanged)
 	ReloadAlt float64 `json:"reload_alt_threshold,omitempty"`
+	// Recovered: the exploration does not start from a new breaker but after one complete round (tripped by a
+	// failing request, retry timeout, the required number of successful probes: closed again)
+	Recovered bool `json:"after_one_recovery,omitempty"`
 }
 
 func (c Config) String() string { b, _ := json.Marshal(c); return string(b) }
@@ -130,6 +133,8 @@ type scen struct {
 	live  [maxLive]*liveReq
 	now   int64
 	log   []trans
+	// prefixBad: a violation met while driving the breaker through its first recovery round (Config.Recovered)
+	prefixBad string
 }
 
 func (s *scen) Name() string        { return s.cfg.String() }
@@ -180,6 +185,34 @@ func (s *scen) Reset() {
 		panic("harness: a breaker rule of the configuration was not accepted")
 	}
 	cb.RegisterStateChangeListeners(listener{s})
+	s.prefixBad = ""
+	if s.cfg.Recovered {
+		find := func(kind, slot int, tick int64) int {
+			for i, o := range s.ops {
+				if o.kind == kind && (kind == 3 && o.tick == tick || kind != 3 && (kind == 0 || o.slot == slot)) {
+					return i
+				}
+			}
+			panic("harness: prefix operation not in the alphabet")
+		}
+		b := s.cfg.B[0]
+		seq := []int{find(0, 0, 0), find(2, 0, 0), find(3, 0, int64(b.Retry))}
+		n := int(b.ProbeNum)
+		if n == 0 {
+			n = 1
+		}
+		for k := 0; k < n; k++ {
+			seq = append(seq, find(0, 0, 0), find(1, 0, 0))
+		}
+		for _, i := range seq {
+			if o := s.ops[i]; (o.kind == 1 || o.kind == 2) && s.live[o.slot] == nil {
+				panic("harness: the recovery round of configuration " + s.cfg.String() + " cannot be driven (a request of it was rejected)")
+			}
+			if _, v := s.Apply(i); v != "" && s.prefixBad == "" {
+				s.prefixBad = "in the first recovery round: " + v
+			}
+		}
+	}
 }
 
 func (b *mBreaker) window(now int64) (bad, total uint64) {
@@ -208,6 +241,11 @@ func (b *mBreaker) reached(bad, total uint64) bool {
 }
 
 func (s *scen) Apply(i int) (string, string) {
+	if s.prefixBad != "" {
+		v := s.prefixBad
+		s.prefixBad = ""
+		return "", v
+	}
 	o := s.ops[i]
 	logStart := len(s.log)
 	var want []trans
@@ -521,6 +559,11 @@ func configs(quick bool) []Config {
 	// from "reaches the threshold"), ratios of one quarter
 	for _, b := range []BSpec{{2, 0.25, 0, 5, 10, 1, 0}, {2, 2.25, 0, 5, 10, 1, 0}, {2, 2.25, 2, 10, 20, 2, 1}, {0, 0.25, 2, 5, 10, 1, 0}, {1, 0.25, 3, 5, 20, 2, 1}} {
 		out = append(out, Config{B: []BSpec{b}})
+	}
+	// starting after one complete recovery round (probe counters, cleared statistics and deadlines of a second round)
+	// (configurations that one failing request trips)
+	for _, b := range []BSpec{{2, 1, 0, 5, 10, 1, 2}, {1, 0.5, 0, 5, 20, 2, 2}, {2, 1, 0, 10, 20, 2, 3}} {
+		out = append(out, Config{B: []BSpec{b}, Recovered: true})
 	}
 	// two breakers on the resource: a probe of the first can be blocked by the second
 	two := [][]BSpec{
